@@ -42,13 +42,43 @@ def constants():
         ("MAX_BITCOIN", int(amount._MAX_BITCOIN), "amount._MAX_BITCOIN"),
         ("MAX_SATOSHI_VALUE", amount._MAX_SATOSHI, "amount._MAX_SATOSHI as loaded"),
     ]
+    txt_pks = _pub_key_size_lean()
     from btclib.script import sig_ops
     txt = "".join(f"/-- `{doc}` -/\ndef {n} : Int := {v}\n" for n, v, doc in rows)
     txt += "/-- `sig_ops._CHECKSIG`, `sig_ops._CHECKMULTISIG` (op code bytes), `limits.MAX_PUBKEYS_PER_MULTISIG` -/\n"
     txt += f"def SIGOPS_CHECKSIG : List Nat := {sorted(sig_ops._CHECKSIG)}\n"
     txt += f"def SIGOPS_CHECKMULTISIG : List Nat := {sorted(sig_ops._CHECKMULTISIG)}\n"
     txt += f"def SIGOPS_MULTISIG_COST : Nat := {sig_ops.MAX_PUBKEYS_PER_MULTISIG}\n"
-    return txt
+    return txt + txt_pks
+
+
+def _pub_key_size_lean():
+    """`psbt_size._pub_key_size` has a loop, which pyfun2lean does not translate; this recognises the one shape it has
+    -- find the first key of hd_key_paths whose hash160 is the payload -- by comparing the AST with that shape, and
+    emits the corresponding `List.find?`.  Any other body is a broken tie (raised here), never a silent pass."""
+    import ast
+    import inspect
+    import textwrap
+
+    import btclib.hashes
+    fn = ast.parse(textwrap.dedent(inspect.getsource(psbt_size._pub_key_size))).body[0]
+    body = [n for n in fn.body if not (isinstance(n, ast.Expr) and isinstance(n.value, ast.Constant))]
+    want = ast.parse(textwrap.dedent("""
+        for pub_key in psbt_in.hd_key_paths:
+            if hash160(pub_key) == payload:
+                return len(pub_key)
+        return COMPRESSED_PUB_KEY_SIZE
+    """)).body
+    if [ast.dump(n) for n in body] != [ast.dump(n) for n in want] or [a.arg for a in fn.args.args] != ["psbt_in", "payload"] \
+            or psbt_size.hash160 is not btclib.hashes.hash160:
+        raise ValueError("psbt_size._pub_key_size is no longer the find-first loop the translator recognises: "
+                         + ast.unparse(fn.body[-3:] if len(fn.body) > 3 else fn.body)[:300])
+    return ("/-- translated (recognised shape: the first key of hd_key_paths whose hash160 is the payload, else the\n"
+            "    compressed size) from `btclib.psbt.psbt_size._pub_key_size` -/\n"
+            "def pub_key_size (hash160 : Btc.Bytes → Btc.Bytes) (hd_key_paths : List Btc.Bytes) (payload : Btc.Bytes) : Int :=\n"
+            "  match hd_key_paths.find? (fun pub_key => hash160 pub_key == payload) with\n"
+            "  | some pub_key => Btc.Py.len pub_key\n"
+            "  | none => COMPRESSED_PUB_KEY_SIZE\n")
 
 
 # ----------------------------------------------------------------- argument generators
